@@ -52,7 +52,7 @@ def cases(tier, seed):
             cs.append({'kind': 'cover', 'names': allnames[i:i + per], 'pos': p, 'seed': rng.randrange(1 << 30), 'render': ['plain', 'json'][(i // per) % 2]})
     masks = [(c, a) for c in range(128) for a in range(0, 128, 2)]
     if tier == 'quick':
-        masks = rng.sample(masks, 36) + [(0x48, 0x0c), (0x7f, 0x7e), (1, 2), (0, 0x0c), (0x48, 0)]
+        masks = rng.sample(masks, 36) + [(0x48, 0x0c), (0x7f, 0x7e), (1, 2), (0, 0x0c), (0x48, 0)] + [(m, m) for m in (0x48, 0x0c, 0x7e, 2, 0x40, 0x24)]   # equal masks: two different tables are indexed by the same number
     for i, (cm, am) in enumerate(masks):
         cs.append({'kind': 'ssh1', 'cmask': cm, 'amask': am, 'render': ['plain', 'json'][i % 2]})
     return cs
